@@ -5,7 +5,7 @@ import re
 import common
 import flowgen
 
-DEP_FILES = ["ValidateModel.v", "ValidateProofs.v"]
+DEP_FILES = ["ValidateModel.v", "ValidateProofs.v", "ValidateWalk.v"]
 
 CLASSES = [
     ("DupParam", r"already provided to cff\.Params"),
